@@ -43,7 +43,8 @@ Proof. exact path_packed_eq. Qed.
    declared widths: 255 * 2^56 < 2^leaf_acc_bits, 2^56 < 2^leaf_count_bits, the other counters
    hold 2^56, 3 * 255^2 fits the k-d distance type, Rnd's state is the 32-bit word the model
    wraps at, the f32 significand (24, derived from the declared element type of ColorError)
-   covers the 16 bits the slot bound needs.  A narrower declared type breaks it (the whole
+   covers the 16 bits the slot bound needs, the palette index carried by a k-d node (field and
+   casts) holds every index of a palette of at most 2^56 entries.  A narrower declared type breaks it (the whole
    file then fails to build) and props.d/C13.py turns the widths into a failing input. *)
 Lemma C13_machine_words :
   (forall n, (n <= max_pixels)%N -> (255 * n < leaf_acc_limit /\ n < leaf_count_limit)%N) /\
@@ -51,7 +52,8 @@ Lemma C13_machine_words :
   (max_pixels < 2 ^ info_leaf_bits /\ max_pixels < 2 ^ info_color_bits /\ max_pixels < 2 ^ info_min_bits /\
    max_pixels < 2 ^ leaf_index_bits)%N /\
   (3 * 255 * 255 < 2 ^ kd_dist_bits)%N /\ (255 < 2 ^ kd_color_bits)%N /\
-  rnd_state_bits = 32%N /\ (16 <= color_error_significand_bits)%N.
+  rnd_state_bits = 32%N /\ (16 <= color_error_significand_bits)%N /\
+  (max_pixels < 2 ^ kd_index_bits)%N.
 Proof. exact machine_words. Qed.
 
 (* Octree pipeline of ColorPalette::from_image: for every non-empty list of at most 2^56
